@@ -83,10 +83,13 @@ claimed = {
    text="Decides from source, for all remote transcripts at once: crash-site inventory over the 119 functions reachable from Exchange in fbb, lzhuf (decoder) and mailbox: every index/slice site proven in range by the compiler's prove pass or by the fact engine (length guards, library post-conditions, caller facts, field invariants), bounded make sizes, nil-guarded calls through func fields, no reachable panic/log.Fatal/os.Exit/unchecked assertion except a reviewed exception table (handler contract, local outbox state, sort.Interface contract) and the adaptive-tree indices, both listed as ASSUMED and never counted as discharged; every loop that reads from the remote tests, on each iteration, the error of a read with the error edge leaving the loop; the decompressor cannot return (0,nil) forever; the connection is closed on every exit. Does not decide nil dereferences, termination of non-reading loops, memory used inside the standard library, decompression ratio.",
    technique="crash-site inventory over the call-graph closure, discharged by compiler bounds-check-elimination proofs and a difference-bound fact engine with interprocedural facts; natural-loop analysis of remote reads; abstract case enumeration; dominance of the deferred close",
    ref="DESIGN.md section 4, C03"),
+ "C06": dict(
+   text="Thin claim, stated as such: decides structural necessary conditions of CHUNKING INDEPENDENCE only - the per-call counters of Writer.Write and Reader.Read never flow into persistent codec state (only into indexing of the caller's buffer, comparisons with len(p), increments, the result), Write returns only with n >= len(p) proved, every match byte that does not fit the caller's buffer is kept (identically) in the hold-back buffer which is served before decoding resumes, io.EOF only when the hold-back buffer is empty, Close drains the lookahead before the end code and header. Losslessness itself (decode(encode(x)) == x: tree update, match search, bit packing, the empty input, the tree rebuild) is NOT decided by any static rule here - it is an equality of run-time byte strings.",
+   technique="information-flow rule on SSA for per-call counters, length proof by the fact engine, dominance/edge rules for the hold-back buffer",
+   ref="DESIGN.md section 4, C06"),
 }
 
 not_applicable = {
- "C06": "no clause of round-trip equality / chunking independence is visible in the shape of the code (run-time equality of byte strings produced by an adaptive coder); see DESIGN.md section 4, C06",
 }
 
 props = [json.loads(l) for l in open('properties.jsonl')]
